@@ -1,5 +1,6 @@
 import PenneModel.Types.ValueType
 import PenneModel.Decls.Order
+import PenneModel.Sem.Order
 /-
   C11 — top-level declarations are order-independent and must be well-formed.  Property theorems.
 -/
@@ -259,3 +260,16 @@ theorem cycle_perm_invariant (E F : List (Nat × Nat)) (h : E.Perm F) : (cyclica
 example : cyclical [(1, 2), (2, 3), (3, 1)] = [3] ∧ cyclical [(1, 2), (2, 3), (1, 3)] = [] := by decide
 
 end Order
+
+
+namespace Sem
+
+/-- **behaviour does not depend on the order of the function declarations**: permuting the functions of a program (distinct
+    names, as E421 guarantees) leaves the interpreter's result unchanged — output, exit status, undefined behaviour and fuel
+    exhaustion alike, at every fuel (the interpreter consults the list only through lookups by name: `interp_congr`) -/
+theorem function_order_irrelevant (consts : List (String × Expr)) (fns fns' : List Fn) (hp : fns.Perm fns')
+    (hnd : (fns.map (·.name)).Nodup) (fuel : Nat) :
+    run { consts := consts, fns := fns } fuel = run { consts := consts, fns := fns' } fuel :=
+  run_perm consts fns fns' hp hnd fuel
+
+end Sem
